@@ -5,6 +5,7 @@ package persistence
 // history search (c14a_test.go), the crash-point enumeration and its worker (c14b_test.go).
 
 import (
+	"syscall"
 	"bytes"
 	"encoding/json"
 	"errors"
@@ -75,7 +76,7 @@ var vxCorrupt = []struct {
 // ---------------------------------------------------------------- symbols
 
 type vxOp struct {
-	Op   string `json:"op"`   // save | load | delete | corrupt | reopen
+	Op   string `json:"op"`   // save | load | delete | corrupt | reopen | starved-load (load while the process has no free file descriptor) | save-noid (save under the empty fan id, which the store refuses)
 	Kind int    `json:"kind"` // 0 rpm-curve (SaveFanPwmData..), 1 pwm-map (SaveFanPwmMap..)
 	Fan  int    `json:"fan"`  // index into vxFanIds
 	Val  int    `json:"val"`  // save: value index; corrupt: variant index
@@ -91,6 +92,32 @@ func (o vxOp) String() string {
 		return fmt.Sprintf("corrupt(%s,%s,%s)", vxKindName[o.Kind], vxFanIds[o.Fan], vxCorrupt[o.Val].Name)
 	}
 	return fmt.Sprintf("%s(%s,%s)", o.Op, vxKindName[o.Kind], vxFanIds[o.Fan])
+}
+
+// vxStarveFds lowers RLIMIT_NOFILE to the lowest free descriptor number, so that nothing can be opened until the returned
+// function is called.
+func vxStarveFds() (restore func()) {
+	var lim syscall.Rlimit
+	if err := syscall.Getrlimit(syscall.RLIMIT_NOFILE, &lim); err != nil {
+		panic(err)
+	}
+	// find the lowest free descriptor: everything at or above it becomes unavailable
+	f, err := os.Open("/dev/null")
+	if err != nil {
+		panic(err)
+	}
+	lowest := uint64(f.Fd())
+	f.Close()
+	low := lim
+	low.Cur = lowest
+	if err := syscall.Setrlimit(syscall.RLIMIT_NOFILE, &low); err != nil {
+		panic(err)
+	}
+	return func() {
+		if err := syscall.Setrlimit(syscall.RLIMIT_NOFILE, &lim); err != nil {
+			panic(err)
+		}
+	}
 }
 
 func vxOpsString(ops []vxOp) string {
@@ -113,8 +140,10 @@ func vxOpValid(o vxOp) bool {
 		return o.Val >= 0 && o.Val < len(vxVals)
 	case "corrupt":
 		return o.Val >= 0 && o.Val < len(vxCorrupt)
-	case "load", "delete":
+	case "load", "delete", "starved-load":
 		return true
+	case "save-noid":
+		return o.Val >= 0 && o.Val < len(vxVals)
 	}
 	return false
 }
@@ -173,6 +202,7 @@ func vxNewSys(path string) *vxSys { return &vxSys{p: NewPersistence(path), path:
 
 type vxRes struct {
 	Err   error
+	Err2  error // save-noid: error of the load that follows an acknowledged save
 	Panic string
 	Rpm   map[int]float64
 	Pwm   map[int]int
@@ -254,6 +284,33 @@ func (s *vxSys) apply(op vxOp) (res vxRes) {
 		}
 	case "corrupt":
 		res.Err = vxRawPut(s.path, op.Kind, id, vxCorrupt[op.Val].Bytes)
+	case "starved-load":
+		// the process is out of file descriptors for the duration of this one load (the database cannot be opened)
+		restore := vxStarveFds()
+		func() {
+			defer restore()
+			if op.Kind == 0 {
+				res.Rpm, res.Err = s.p.LoadFanPwmData(vxFan(id))
+			} else {
+				res.Pwm, res.Err = s.p.LoadFanPwmMap(id)
+			}
+		}()
+	case "save-noid":
+		// a save the store must refuse (empty key); if it is nevertheless acknowledged it has to be loadable
+		if op.Kind == 0 {
+			m := vxCopyRpm(vxVals[op.Val].Rpm)
+			fan := vxFan("")
+			fan.FanCurveData = &m
+			res.Err = s.p.SaveFanPwmData(fan)
+			if res.Err == nil {
+				res.Rpm, res.Err2 = s.p.LoadFanPwmData(vxFan(""))
+			}
+		} else {
+			res.Err = s.p.SaveFanPwmMap("", vxCopyPwm(vxVals[op.Val].Pwm))
+			if res.Err == nil {
+				res.Pwm, res.Err2 = s.p.LoadFanPwmMap("")
+			}
+		}
 	default:
 		panic("vx: unknown op " + op.Op)
 	}
@@ -523,6 +580,36 @@ func vxCheckRet(mb vxModel, op vxOp, res vxRes) (ma vxModel, fails []vxFail, cls
 			return
 		}
 		ma[op.Kind][op.Fan] = vxEnt{}
+	case "starved-load":
+		// the environment failed, not fan2go: an error is fine; a result must be the stored one; the store itself is checked by vxCheckRaw
+		if res.Err == nil && cur.St == vxStored {
+			var d string
+			if op.Kind == 0 {
+				d = vxEqRpm(res.Rpm, vxVals[cur.Idx].Rpm)
+			} else {
+				d = vxEqPwm(res.Pwm, vxVals[cur.Idx].Pwm)
+			}
+			if d != "" {
+				fails = append(fails, vxFail{"C14 load returned different data " + kn, fmt.Sprintf("saved value %q: %s", vxVals[cur.Idx].Name, d)})
+			}
+		}
+		if cur.St == vxGarbage && res.Err == nil {
+			ma[op.Kind][op.Fan] = vxEnt{} // like load: an undecodable entry may be dropped by the load that finds it
+		}
+	case "save-noid":
+		if res.Err == nil {
+			d := ""
+			if res.Err2 != nil {
+				d = "the load that follows fails: " + res.Err2.Error()
+			} else if op.Kind == 0 {
+				d = vxEqRpm(res.Rpm, vxVals[op.Val].Rpm)
+			} else {
+				d = vxEqPwm(res.Pwm, vxVals[op.Val].Pwm)
+			}
+			if d != "" {
+				fails = append(fails, vxFail{"C14 save acknowledged although nothing was stored " + kn, fmt.Sprintf("save under the empty fan id (refused by the store) returned nil; %s", d)})
+			}
+		}
 	case "load":
 		switch cur.St {
 		case vxAbsent:
